@@ -298,6 +298,8 @@ def scan_windows(ctx, n):
                       ("min-gen-set+partition-constraints", dict(off, use_min_gen_set_lowerbound=True, use_min_gen_set_lowerbound_partition_constraints=True,
                                                                   use_min_gen_set_lowerbound_partition_constraints_min_constraint_len=1)),
                       ("scan+guessed-weights", dict(off, use_subgraph_scanning_lowerbound=True, optimize_with_guessed_weights=True)),
+                      ("scan+guessed-weights-without-window-weights", dict(off, use_subgraph_scanning_lowerbound=True, optimize_with_guessed_weights=True,
+                                                                            use_subgraph_scanning_weights_in_given_weights_optimization=False)),
                       ("scan+safe-paths", dict(off, use_subgraph_scanning_lowerbound=True, optimize_with_safe_paths=True))):
             got = scan_outcome(info, o, (size, shift))
             ctx.count("E2_option_vectors", "runs")
